@@ -23,7 +23,8 @@ NOT_DECIDED = ["rustls' validation itself", "timing of cache expiry"]
 
 def run(chk, prog):
     # ---------------------------------------------------------------- (1)
-    hs = prog.body_of(prog.one(r"^listeners::socks::SocksListener::handshake$"))
+    from . import shared as _sh
+    hs = _sh.fn_calling(prog, r"auth::AuthData::check$", "listeners/socks.rs")
     enq = [c for c in hs.calls if re.search(r"context::ContextRefOps::enqueue$", c.path or "")]
     chks = [c for c in hs.calls if re.search(r"auth::AuthData::check$", c.name or "")]
     rd = [c for c in hs.calls if re.search(r"socks::SocksRequest::<T>::read_from$", c.name or "")]
@@ -304,8 +305,9 @@ def run(chk, prog):
                     "TlsClientVerifyConfig::verifier no longer selects AllowAnyAuthenticatedClient exactly when `required` is set")
 
     # ---------------------------------------------------------------- (5) TLS accept dominates
-    for pat in (r"^listeners::http::HttpListener::create_context$", r"^listeners::socks::SocksListener::handshake$"):
-        g = prog.body_of(prog.one(pat))
+    from . import shared as _sh2
+    for suffix in ("listeners/http.rs", "listeners/socks.rs"):
+        g = _sh2.fn_calling(prog, r"tokio_rustls::TlsAcceptor::accept$", suffix)
         acc = [c for c in g.calls if re.search(r"tokio_rustls::TlsAcceptor::accept$", c.name or "")]
         mk = [c for c in g.calls if re.search(r"context::make_buffered_stream$", c.name or "")]
         for h in prog.children(g):
